@@ -1,0 +1,19 @@
+// Copyright The gittuf Authors
+// SPDX-License-Identifier: Apache-2.0
+
+//go:build verif
+
+// gvc contracts (comment-only, read under the "verif" build tag).
+
+package v01
+
+//@ func [C06,C10] (*Delegation).Matches -> (m)
+//@   pure
+//@   requires d != nil
+//@   ensures iff: m <==> (exists i :: 0 <= i && i < len(d.Paths) && fnm(d.Paths[i], target))
+//@   loop 1:
+//@     invariant noneSoFar: forall j :: 0 <= j && j <= rangeindex ==> !fnm(d.Paths[j], target)
+
+//@ func (*OtherRepository).GetInitialRootPrincipals -> (ps)
+//@   trusted
+//@   pure
